@@ -1,4 +1,5 @@
 from algo_prop import make
+LEAN_EXTRA = ["PyXABProofs.Generated.FormulasC08"]
 ALGOS = ['SOO', 'StoSOO', 'DOO']
 budget, explore, search, replay = make("C08", ALGOS, quick_per_algo=14, thorough_per_algo=150, salt=800)
 RULE = ("the documented pull/receive loop on the real classes: algorithm x partition class (K 2..5) x dimension 1..3 x box shape x "
@@ -34,3 +35,10 @@ def explore(tier, seed, n):
     res["mism"] = mism + res["mism"]
     res["n_ops"] += n_ops
     return res
+
+
+def regenerate(tier):
+    """translator tie for the numeric formulas: the real node methods are traced symbolically and re-proved equal to the
+    published formulas (Spec/Formulas.lean) over every field, on every run"""
+    import translate_formulas
+    return translate_formulas.generate("C08")
